@@ -86,6 +86,40 @@ Proof.
   - split; [apply S1|]. split; [exact Y1|]. split; [exact D1|exact C1].
 Qed.
 
+(* one header codeword m, then the data, ASCII only: the stream is m followed by a legal ASCII script and padding *)
+Lemma header1_ascii sorter symbols d m cw s :
+  (forall k l l', sorter symbols k l = Ok l' -> incl l' l) -> bytes_ok d = true ->
+  codewords (optimize_fn sorter) (mkenc d d Ascii [] None [m] 1 symbols) = Ok (cw, s) ->
+  exists npad, script_ok [SAscii (greedy d)] npad = true /\ cw = stream_with m [SAscii (greedy d)] npad.
+Proof.
+  intros HS OK. unfold codewords. cbn [e_symbols].
+  destruct symbols as [|s0 sr] eqn:ES; [discriminate|]. rewrite <- ES in *.
+  destruct (_ <? _); [discriminate|]. destruct (upper_limit_for_number_of_codewords _ _); [|discriminate].
+  cbn [e_data e_modes]. change (cw_len (mkenc d d Ascii [] None [m] 1 symbols)) with 1.
+  unfold optimize_fn. destruct (optimize symbols (sorter symbols) d 1 Ascii 1) as [[p st]| |] eqn:EO; cbn [bind lift]; try discriminate.
+  destruct p as [p|]; [|discriminate].
+  rewrite (ascii_only_plan_w symbols (sorter symbols) HS d 1 p st EO). cbn [N.eqb].
+  cbn [e_input e_encodation e_new_mode e_cw].
+  set (ep := mkenc d d Ascii [(N.of_nat (length d), Ascii); (0, Ascii)] None [m] 1 symbols).
+  assert (exists e3, main_loop (6 * length (e_data ep) + 12) ep 0 = Ok e3 /\ e_encodation e3 = Ascii /\ e_symbols e3 = symbols /\
+            e_cw e3 = [m] ++ flat_map aitem_cw (greedy d)) as (e3 & ML & EA & ESy & C3).
+  { assert (d = [] \/ d <> []) as [EB|NB] by (destruct d; [left; reflexivity|right; discriminate]).
+    - exists ep. unfold ep. rewrite EB. cbn. repeat split.
+    - destruct (main_loop_stays_from (6 * length (e_data ep) + 12) ep) as (e3 & A & B & C & D & E); [|reflexivity|lia|].
+      + split; [reflexivity|]. split; [reflexivity|exact NB].
+      + exists e3. repeat split; assumption. }
+  change (e_data ep) with d in ML. rewrite ML. cbn [bind].
+  unfold symbol_for. destruct (first_symbol_big_enough_for (e_symbols e3) (cw_len e3 + 0)) as [s'|] eqn:FF; [|discriminate].
+  destruct (add_padding e3 s') as [e4| |] eqn:AP; cbn [bind]; try discriminate. intros [= <- <-].
+  apply add_padding_spec in AP. destruct AP as (L & C4 & _).
+  rewrite EA in C4. rewrite (proj2 (N.eqb_eq _ _) eq_refl : et_eqb Ascii Ascii = true) in C4. rewrite padding_pad in C4.
+  destruct (greedy_ok d OK) as [GO _].
+  exists (N.to_nat (num_data_codewords s' - cw_len e3)). split.
+  - cbn [script_ok segment_ok term_of]. rewrite GO. reflexivity.
+  - rewrite C4. unfold stream_with, tailS. cbn [render segment_cw]. cbv zeta. rewrite app_nil_r, C3. cbn [app]. do 2 f_equal.
+    unfold cw_len. rewrite C3. cbn [app length]. f_equal. lia.
+Qed.
+
 (* the lossless part of C16 for the ASCII-only configuration *)
 Theorem macro_ascii_roundtrip sorter data symbols body m head cw s :
   (forall k l l', sorter symbols k l = Ok l' -> incl l' l) -> bytes_ok body = true ->
@@ -104,30 +138,22 @@ Proof.
   destruct (use_macro_spec e0) as (e1 & UM & M5 & M6 & _). rewrite UM. cbn [bind].
   assert (e1 = strip_to e0 body m) as ->.
   { destruct HM as [[-> ->]|[-> ->]]; [apply M5|apply M6]; try reflexivity; unfold enveloped; exact HD. }
-  unfold codewords. cbn [e_symbols strip_to e0 with_size].
-  destruct symbols as [|s0 sr] eqn:ES; [discriminate|]. rewrite <- ES in *.
-  destruct (_ <? _); [discriminate|]. destruct (upper_limit_for_number_of_codewords _ _); [|discriminate].
-  cbn [e_data e_modes strip_to]. change (cw_len (strip_to e0 body m)) with 1.
-  unfold optimize_fn. change (e_modes e0) with 1. destruct (optimize symbols (sorter symbols) body 1 Ascii 1) as [[p st]| |] eqn:EO; cbn [bind lift]; try discriminate.
-  destruct p as [p|]; [|discriminate].
-  rewrite (ascii_only_plan_w symbols (sorter symbols) HS body 1 p st EO). cbn [N.eqb].
-  cbn [e_input e_encodation e_new_mode e_cw strip_to e0 with_size app].
-  set (ep := mkenc body body Ascii [(N.of_nat (length body), Ascii); (0, Ascii)] None [m] 1 symbols).
-  assert (exists e3, main_loop (6 * length (e_data ep) + 12) ep 0 = Ok e3 /\ e_encodation e3 = Ascii /\ e_symbols e3 = symbols /\
-            e_cw e3 = [m] ++ flat_map aitem_cw (greedy body)) as (e3 & ML & EA & ESy & C3).
-  { assert (body = [] \/ body <> []) as [EB|NB] by (destruct body; [left; reflexivity|right; discriminate]).
-    - exists ep. unfold ep. rewrite EB. cbn. repeat split.
-    - destruct (main_loop_stays_from (6 * length (e_data ep) + 12) ep) as (e3 & A & B & C & D & E); [|reflexivity|lia|].
-      + split; [reflexivity|]. split; [reflexivity|exact NB].
-      + exists e3. repeat split; assumption. }
-  change (e_data ep) with body in ML. rewrite ML. cbn [bind].
-  unfold symbol_for. destruct (first_symbol_big_enough_for (e_symbols e3) (cw_len e3 + 0)) as [s'|] eqn:FF; [|discriminate].
-  destruct (add_padding e3 s') as [e4| |] eqn:AP; cbn [bind]; try discriminate. intros [= <- <-].
-  apply add_padding_spec in AP. destruct AP as (L & C4 & _).
-  rewrite EA in C4. rewrite (proj2 (N.eqb_eq _ _) eq_refl : et_eqb Ascii Ascii = true) in C4. rewrite padding_pad in C4.
-  destruct (greedy_ok body OK) as [GO _].
-  exists (N.to_nat (num_data_codewords s' - cw_len e3)). split.
-  - cbn [script_ok segment_ok term_of]. rewrite GO. reflexivity.
-  - rewrite C4. unfold stream_with, tailS. cbn [render segment_cw]. cbv zeta. rewrite app_nil_r, C3. cbn [app]. do 2 f_equal.
-    unfold cw_len. rewrite C3. cbn [app length]. f_equal. lia.
+  apply header1_ascii; assumption.
+Qed.
+
+(* GS1: FNC1 start, ASCII only -- 232 first, and the decoder returns the data without it *)
+Theorem fnc1_ascii_roundtrip sorter data symbols use_macros cw s :
+  (forall k l l', sorter symbols k l = Ok l' -> incl l' l) -> bytes_ok data = true ->
+  encode_data_internal (optimize_fn sorter) data symbols None 1 use_macros true = Ok (cw, s) ->
+  (exists npad, script_ok [SAscii (greedy data)] npad = true /\ cw = stream_with ascii_FNC1 [SAscii (greedy data)] npad) /\
+  decode_data cw = Ok data.
+Proof.
+  intros HS OK H.
+  assert (exists npad, script_ok [SAscii (greedy data)] npad = true /\ cw = stream_with ascii_FNC1 [SAscii (greedy data)] npad) as (npad & SO & CW).
+  2:{ split; [exists npad; auto|]. rewrite CW, (decode_script_fnc1 _ _ SO). unfold meaning. cbn [flat_map segment_data].
+      rewrite app_nil_r. destruct (greedy_ok data OK) as [_ GD]. exact (f_equal Ok GD). }
+  revert H. unfold encode_data_internal. cbv zeta.
+  set (um := if use_macros then _ else _).
+  assert (um = Ok (with_size data symbols 1 true)) as -> by (unfold um; destruct use_macros; reflexivity).
+  cbn [bind]. apply header1_ascii; assumption.
 Qed.
